@@ -849,7 +849,10 @@ func (cr *clRun) deepChecks(when string, promoted string) {
 	}
 	// checkpoint agreement (C13)
 	if cp := c.ctrl.Checkpoint; cp != "" {
-		if len(rws) != c.rf || countMode(list, types.RW) != c.rf {
+		// (an entry already marked ERR is on its way out: the controller re-computes the checkpoint when it
+		// removes it, which the C05 clause failed-replica-never-detached bounds; "as soon as a replica
+		// leaves" is judged from the removal on)
+		if (len(rws) != c.rf || countMode(list, types.RW) != c.rf) && countMode(list, types.ERR) == 0 {
 			cr.viol("C13", "checkpoint-kept-without-all-rw", "%s: controller checkpoint %s while %d of RF=%d replicas are RW: %v", when, cp, countMode(list, types.RW), c.rf, list)
 			return
 		}
